@@ -817,10 +817,17 @@ fn run_free(c: &FreeCase) -> CaseResult {
     if c.index_x {
         model.indexes.insert(0);
     }
-    battery(store, &model, &ids).map_err(|f| Failure {
-        signature: format!("c20/free/derived-structures-disagree:{}", f.signature),
-        what: format!("after {n} threads finished: {}", f.what),
-    })?;
+    if let Err(f) = battery(store, &model, &ids) {
+        // real threads writing one shared node's indexed key: the listed index-update / property-write race
+        // (only index-path lookups disagree; everything else in the battery must still hold)
+        if c.index_x && f.signature.contains("/indexed/") {
+            return crate::driver::ok_with_known(false, format!("{n}thr/indexed-write-race"), hash_dbg(c), vec!["c20/known/indexed-property-write-race".to_string()]);
+        }
+        return Err(Failure {
+            signature: format!("c20/free/derived-structures-disagree:{}", f.signature),
+            what: format!("after {n} threads finished: {}", f.what),
+        });
+    }
     ok(n >= 2 && all_nodes.len() > 3, format!("{n}thr"), hash_dbg(c))
 }
 
@@ -843,4 +850,10 @@ pub fn run(r: &mut Run) {
     r.subcheck("rdf", r.cases(6000, 300_000), move || rdf_strategy(3), run_rdf);
     r.subcheck("buffer", r.cases(6000, 300_000), buf_strategy, run_buffer);
     r.subcheck("free", r.cases(6000, 200_000), free_strategy, run_free);
+    // begin / record_write / commit from several real threads behind barriers (the runner of C03's `threaded`
+    // sub-check): of any set of pairwise-conflicting overlapping writers at most one commit is acknowledged, every
+    // refusal has a committed conflicting writer, commit epochs are exactly base+1..base+k
+    r.subcheck("tm_threads", r.cases(600, 60_000), move || crate::props::c03::threaded_strategy(if thorough { 8 } else { 6 }), |c| {
+        crate::props::c03::check_threaded(c).map_err(|f| Failure { signature: f.signature.replacen("c03/", "c20/tm/", 1), what: f.what })
+    });
 }
